@@ -1023,7 +1023,7 @@ pub fn long_programs(ch: usize) -> Vec<Node> {
         }
     }
     // 16-bit boundary: delays of 2^16 +- 1 frames run to the end (a count kept in 16 bits would wrap)
-    for k in [65535u32, 65536, 65537] {
+    for k in [1024u32, 4096, 44100, 48000, 65535, 65536, 65537] {
         let d = |c: Box<Node>| Node::U(Un::Delay(k), c);
         v.push(d(l(Leaf::Probe(3))));
         v.push(d(l(Leaf::Iter(2))));
